@@ -40,7 +40,26 @@ SymbolicAgrees ==
        /\ (n \in Ns => (MustThrow(rel, d) <=> n > MaxSizeOf(es)))
        /\ (n \in Ns /\ MustThrow(rel, d) => n * es > W - 1)
 
+\* the limb formulas of AllocGuard (used at base 2^16 x 4 limbs for the real size_t) agree with integer arithmetic
+\* at base 4 x 4 limbs (W = 256) / base 16 x 3 limbs (W = 4096): max_size() of every element size, and requests around it
+LB == IF W = 256 THEN 4 ELSE 16
+LN == IF W = 256 THEN 4 ELSE 3
+LimbsAgree ==
+  /\ LB ^ LN = W
+  /\ \A es \in ESizes :
+       /\ ETypeOK([size |-> es, align |-> 1])
+       /\ LimbVal(LB, MaxSizeL(LB, LN, es)) = MaxSizeOf(es)
+       /\ \A rel \in Rels, d \in Ds :
+            LET n == Concrete(es, rel, d) IN
+              (rel = "abs" => d >= 0) /\ n \in Ns => LimbVal(LB, RequestL(LB, LN, es, rel, d)) = n
+\* requests that must succeed are never requests that must throw, and their byte count is the plain product
+SmallIsLegal ==
+  \A es \in ESizes, rel \in Rels, d \in Ds :
+     SmallRequest(es, rel, d) => ~MustThrow(rel, d) /\ Representable(es = 1, rel, d)
+
 ASSUME NeverShort
+ASSUME LimbsAgree
+ASSUME SmallIsLegal
 ASSUME ThrowsOnlyOnOverflow
 ASSUME MaxSizeTight
 ASSUME SymbolicAgrees
